@@ -280,6 +280,7 @@ class Interp:
         self.loading = []
         self.ew_hook = None      # callback(node, module, left MatVal, right MatVal, how) on element-wise products
         self.series_hook = None  # callback(node, module, SeriesFn, argument MatVal)
+        self.op_hook = None      # callback(opname, node, module, result MatVal, chain) for sqrt/norm_2/acos/asin/atan2 and '/' 
 
     # ---- modules
     def load(self, name):
@@ -971,11 +972,17 @@ class Interp:
                     self.ew_hook(n, self.cur[-1][0] if self.cur else None, l, r, "*")
                 return cm.ew(l, r, cm.pmul)
             if on == "Div":
-                return cm.ew(l, r, cm.pdiv)
+                res = cm.ew(l, r, cm.pdiv)
+                if self.op_hook is not None:
+                    self.op_hook("/", n, self.cur[-1][0] if self.cur else None, res, list(self.stack))
+                return res
             if on == "MatMult":
                 return cm.matmul(l, r)
             if on == "Pow":
-                return cm.power(l, r)
+                res = cm.power(l, r)
+                if self.op_hook is not None:
+                    self.op_hook("**", n, self.cur[-1][0] if self.cur else None, res, list(self.stack))
+                return res
             raise Unsupported("operator %s on CasADi values" % on, n)
         if isinstance(l, str) and on == "Mod":
             return "<str>"
@@ -1172,7 +1179,13 @@ class Interp:
         if isinstance(f, cm.SeriesFn) and self.series_hook is not None and args:
             self.series_hook(n, self.cur[-1][0] if self.cur else None, f, args[0])
         if callable(f):
-            key = getattr(f, "__qualname__", None)
+            if self.op_hook is not None:
+                nm = WATCHED.get(id(f))
+                if nm is not None:
+                    res = f(*args, **kw)
+                    if isinstance(res, MatVal):
+                        self.op_hook(nm, n, self.cur[-1][0] if self.cur else None, res, list(self.stack))
+                    return res
             try:
                 return f(*args, **kw)
             except (InterpRaise, Unsupported, _Return):
@@ -1481,6 +1494,9 @@ def _minmax(f):
         return f(*a, **k)
     return g
 
+
+WATCHED = {id(getattr(CA, k)): k for k in ("sqrt", "norm_2", "acos", "asin", "atan2", "inv", "norm_fro", "fabs", "sign", "log", "power")}
+WATCHED[id(NP.sqrt)] = "sqrt"
 
 PROPERTY = object()
 BEARTYPE = object()
